@@ -62,9 +62,10 @@ def parseArgs (ts : List String) : Option (List Arg) := ts.mapM parseArg
 
 def initBuf : List UInt8 := List.replicate numFmtBufLen 0
 
-/-- model observation, same canonical text as the harness prints -/
+/-- model observation (index-level model of the Fprintf loop, proved equal to the list-traversal
+model `fprintf`), same canonical text as the harness prints -/
 def modelObs (fmt : List UInt8) (args : List Arg) : String :=
-  match fprintf initBuf fmt args with
+  match fprintfIdx initBuf fmt args with
   | .panic => "panic"
   | .ok ws => s!"ok {ws.length} {encode ws.flatten}"
 
